@@ -37,13 +37,24 @@ def specs(tier):
     return out
 
 
-OFFSET_KINDS = ["none", "ctor", "pi/M", "set1", "setN"]
+OFFSET_KINDS = ["none", "ctor", "pi/M", "set1", "setN", "setconst"]
 
 
 def build(spec, okind, rng):
     """Build a modulator; returns (modulator, description)."""
     cls, M = spec
     hist = []
+    if okind == "setconst" and cls in ("PSK", "QAM"):
+        # an object that carried (and used) a table of another size and then
+        # received this one through the public setConstellation
+        others = [o for c, o in specs("quick") if c == cls and o != M]
+        M0 = int(rng.choice(others))
+        m = F.PSK(M0) if cls == "PSK" else F.QAM(M0)
+        _ = m.K, m.M, m.demodulate(m.modulate(np.arange(M0)))
+        donor = F.PSK(M) if cls == "PSK" else F.QAM(M)
+        m.setConstellation(donor.symbols.copy())
+        hist.append(("setConstellation-from", M0))
+        return m, hist
     if cls == "BPSK":
         return F.BPSK(), hist
     if cls == "QPSK":
@@ -249,9 +260,11 @@ def case_constellation(ctx, rng, idx):
     spec = sp[idx % len(sp)]
     okind = OFFSET_KINDS[(idx // len(sp)) % len(OFFSET_KINDS)]
     cls, M = spec
-    if cls in ("BPSK", "QAM") and okind != "none":
+    if cls in ("BPSK", "QAM") and okind not in ("none", "setconst"):
         return
-    if cls == "QPSK" and okind in ("ctor", "pi/M"):
+    if cls == "QPSK" and okind in ("ctor", "pi/M", "setconst"):
+        return
+    if cls == "BPSK" and okind == "setconst":
         return
     ok, res = ctx.call("table-size", build, spec, okind, rng,
                        detail={"spec": spec, "okind": okind})
@@ -322,7 +335,7 @@ def case_detect(ctx, rng, idx):
     okind = "none"
     if cls in ("PSK", "QPSK"):
         okind = OFFSET_KINDS[int(rng.integers(0, len(OFFSET_KINDS)))]
-        if cls == "QPSK" and okind in ("ctor", "pi/M"):
+        if cls == "QPSK" and okind in ("ctor", "pi/M", "setconst"):
             okind = "set1"
     m, hist = build(spec, okind, rng)
     n = 600 if M <= 256 else (200 if M <= 1024 else 80)
